@@ -118,14 +118,23 @@ fn e1_main(a: &Args) -> i32 {
     let mut det_checked = 0u64;
     let mut det_mismatch = 0u64;
     let mut shrunk = 0u64;
+    let dump_hashes = a.has("dump-hashes");
+    let mut hashes: BTreeMap<String, String> = BTreeMap::new();
 
     let mut i = first + worker;
     while runs < max_runs && (started.elapsed().as_secs_f64() < seconds || runs == 0) {
         let run_seed = prng::mix(seed, &[tier_id(&tier), 1, i]);
+        let t0 = Instant::now();
         let run = e1::gen_run(run_seed, &params, &corpus, &mut oracle);
+        let t1 = Instant::now();
         let (isos, mut found) = e1::isolate(&run, &mut oracle);
         let (run2, isos2) = e1::without_crashers(&run, &isos);
+        let t2 = Instant::now();
         let rep = if run2.total_ops() > 0 { e1::exec_in_child(&run2, &isos2) } else { e1::RunReport::default() };
+        let t3 = Instant::now();
+        bump(&mut sums, "us_generate_incl_oracle", (t1 - t0).as_micros() as u64);
+        bump(&mut sums, "us_isolate", (t2 - t1).as_micros() as u64);
+        bump(&mut sums, "us_execute", (t3 - t2).as_micros() as u64);
         if let Some(msg) = &rep.stalled {
             harness_errors.push(format!("run {} (seed {:016x}): {}", i, run_seed, msg));
             if harness_errors.len() == 1 {
@@ -156,6 +165,9 @@ fn e1_main(a: &Args) -> i32 {
             }
         }
 
+        if dump_hashes {
+            hashes.insert(i.to_string(), format!("{:016x}", rep.event_hash));
+        }
         // statistics
         runs += 1;
         bump(&mut sums, "steps", rep.steps);
@@ -283,7 +295,7 @@ fn e1_main(a: &Args) -> i32 {
         "oracle": {"forks": oracle.forks, "queries": oracle.queries, "memo": oracle.memo_len()},
         "nontrivial_file": nt_path, "nontrivial_local": nontrivial.len(),
         "violations": violations, "harness_errors": harness_errors, "samples": samples,
-        "shim_present": shim,
+        "shim_present": shim, "hashes": hashes,
         "wall_s": started.elapsed().as_secs_f64(),
     });
     if std::fs::write(&out_path, serde_json::to_string(&summary).unwrap()).is_err() {
